@@ -35,8 +35,9 @@ Record ni_inst := {
 Record rt_inst := {
   r_name : string; r_module : string; r_id : option idv; r_algo : string;
   r_nroutes : Z; r_nin : Z; r_nout : Z;
-  (* bound table: name bound to id_route_map_i, value of <Name>NumRules, .NumAddrRules, rules *)
-  r_map : option (string * (Z * (Z * list rule)));
+  (* bound table: name bound to id_route_map_i, value of <Name>NumRules, .NumAddrRules, width of the
+     idx field of its rule struct, rules *)
+  r_map : option (string * (Z * (Z * (Z * list rule))));
   r_req_in : list (list src); r_rsp_out : list (list string);
   r_req_out : list (list string); r_rsp_in : list (list src);
   r_wide_in : list (list src); r_wide_out : list (list string);
@@ -114,10 +115,11 @@ Definition sx_ni (x : sx) : res ni_inst :=
   Ok {| ni_name := name; ni_module := md; ni_id := id; ni_row := row; ni_flags := fl; ni_axi := ax;
         ni_req_o := ro; ni_rsp_i := ri; ni_req_i := qi; ni_rsp_o := qo; ni_wide_o := wo; ni_wide_i := wi |}.
 
-Definition sx_map (x : sx) : res (string * (Z * (Z * list rule))) :=
+Definition sx_map (x : sx) : res (string * (Z * (Z * (Z * list rule)))) :=
   match x with
-  | L [A nm; n1; n2; rs] =>
-      do n1 <- sx_Z n1; do n2 <- sx_Z n2; do rs <- sx_listof rule_of_sx rs; Ok (nm, (n1, (n2, rs)))
+  | L [A nm; n1; n2; iw; rs] =>
+      do n1 <- sx_Z n1; do n2 <- sx_Z n2; do iw <- sx_Z iw; do rs <- sx_listof rule_of_sx rs;
+      Ok (nm, (n1, (n2, (iw, rs))))
   | _ => Err "router map expected"
   end.
 
@@ -187,8 +189,9 @@ Definition x_ni (n : ni_inst) : sx :=
      fld "axi" (xL (xkv xS) (ni_axi n));
      fld "req_o" (A (ni_req_o n)); fld "rsp_i" (A (ni_rsp_i n)); fld "req_i" (A (ni_req_i n));
      fld "rsp_o" (A (ni_rsp_o n)); fld "wide_o" (xO xS (ni_wide_o n)); fld "wide_i" (xO xS (ni_wide_i n))].
-Definition x_map (m : string * (Z * (Z * list rule))) : sx :=
-  L [A (fst m); xZ (fst (snd m)); xZ (fst (snd (snd m))); xL rule_to_sx (snd (snd (snd m)))].
+Definition x_map (m : string * (Z * (Z * (Z * list rule)))) : sx :=
+  L [A (fst m); xZ (fst (snd m)); xZ (fst (snd (snd m))); xZ (fst (snd (snd (snd m))));
+     xL rule_to_sx (snd (snd (snd (snd m))))].
 Definition x_rt (r : rt_inst) : sx :=
   L [fld "name" (A (r_name r)); fld "module" (A (r_module r)); fld "id" (xO xidv (r_id r));
      fld "algo" (A (r_algo r)); fld "nroutes" (xZ (r_nroutes r)); fld "nin" (xZ (r_nin r));
